@@ -16,6 +16,7 @@ pub mod c15;
 pub mod common;
 pub mod c16;
 pub mod c18;
+pub mod c19gen;
 pub mod c20;
 
 use crate::core::{Ctx, Report};
@@ -40,6 +41,7 @@ pub fn run(property: &str, ctx: &Ctx) -> Option<Report> {
         "C15" => c15::run(ctx),
         "C16" => c16::run(ctx),
         "C18" => c18::run(ctx),
+        "C19GEN" => c19gen::run(ctx),
         "C20" => c20::run(ctx),
         _ => return None,
     })
